@@ -68,9 +68,16 @@ class Partition:
         return bool(self.directed_pairs & self._network._directed_partitions)
 
     def heal(self) -> None:
-        """Remove only this partition's pairs, leaving others intact."""
-        self._network._partitioned_pairs -= self.pairs
-        self._network._directed_partitions -= self.directed_pairs
+        """Remove only this partition's pairs, leaving others intact.
+
+        A pair that another partition still in force also blocks stays blocked.
+        """
+        active = self._network._active_partitions
+        active[:] = [p for p in active if p is not self]
+        still_pairs = {pair for p in active for pair in p.pairs}
+        still_directed = {pair for p in active for pair in p.directed_pairs}
+        self._network._partitioned_pairs -= self.pairs - still_pairs
+        self._network._directed_partitions -= self.directed_pairs - still_directed
         logger.info(
             "[%s] Selective partition healed: %d bidirectional + %d directed pairs",
             self._network.name,
@@ -106,6 +113,9 @@ class Network(Entity):
 
     # Directed partition state: set of (source, dest) tuples (asymmetric)
     _directed_partitions: set[tuple[str, str]] = field(default_factory=set, init=False)
+
+    # Partition handles currently in force (a pair may be blocked by several)
+    _active_partitions: list[Partition] = field(default_factory=list, init=False)
 
     # Track all known entities for partition validation
     _known_entities: dict[str, Entity] = field(default_factory=dict, init=False)
@@ -242,11 +252,13 @@ class Network(Entity):
                 [e.name for e in group_b],
             )
 
-        return Partition(
+        handle = Partition(
             pairs=frozenset(bidirectional_pairs),
             directed_pairs=frozenset(directed_pairs),
             _network=self,
         )
+        self._active_partitions.append(handle)
+        return handle
 
     def heal_partition(self) -> None:
         """Remove all network partitions, restoring full connectivity."""
@@ -254,6 +266,7 @@ class Network(Entity):
         num_directed = len(self._directed_partitions)
         self._partitioned_pairs.clear()
         self._directed_partitions.clear()
+        self._active_partitions.clear()
         logger.info(
             "[%s] All partitions healed: %d bidirectional + %d directed pairs restored",
             self.name,
